@@ -19,6 +19,8 @@ PANICKY_NAMES = {
     "assert_failed", "begin_panic", "unimplemented", "todo", "exit", "abort", "remove", "insert", "drain",
     "split_off", "truncate_unchecked", "set_len", "swap", "rotate_left", "rotate_right", "last_mut_unchecked", "nth_unchecked",
     "duration_since_unchecked", "disable_recursion_limit",
+    # allocation sized by a runtime value: `capacity overflow` panic / allocation failure abort
+    "with_capacity", "reserve", "reserve_exact", "resize", "resize_with", "from_elem", "with_capacity_and_hasher",
 }
 # container methods in PANICKY_NAMES that are total on the types used here
 TOTAL_ON = {
@@ -187,6 +189,9 @@ class Reason:
                     return k
         if self.ascii_byte_at(s, a):
             return 1
+        k = self.split_once_pos(a, s)
+        if k is not None:
+            return k
         # a = find payload in s
         fp = self.find_payload(a)
         if fp is not None and fp[0] == s:
@@ -199,6 +204,24 @@ class Reason:
                     rf = self.range_from_start(fp[0])
                     if rf is not None and rf[0] == s and rf[1] == x:
                         return pat_len(fp[1])
+        return None
+
+    def split_once_pos(self, t, s):
+        """pattern length when t = a + strlen(v) with v the first component of `s[a..].split_once(pat)` (so t is where
+        the pattern starts in s), provided a is a boundary of s; else None"""
+        if not (isinstance(t, tuple) and t[0] == "bin" and t[1] == "Add"):
+            return None
+        for a, b in ((t[2], t[3]), (t[3], t[2])):
+            if isinstance(b, tuple) and b[0] == "strlen":
+                v = norm_str(b[1])
+                if isinstance(v, tuple) and v[0] == "val" and v[1][0] == "obj" and isinstance(v[1][1], tuple) and v[1][1][0] == "deref":
+                    v = v[1][1][1]
+                if isinstance(v, tuple) and v[0] == "field" and v[3] == "0" and isinstance(v[1], tuple) and v[1][0] == "field" and v[1][2] == "Some":
+                    c = v[1][1]
+                    if isinstance(c, tuple) and c[0] == "call" and c[1].endswith("split_once") and len(c[2]) == 2:
+                        rf = self.range_from_start(c[2][0])
+                        if rf is not None and rf[0] == s and rf[1] == a and self.is_B(a, s, 5)[0]:
+                            return pat_len(c[2][1])
         return None
 
     # ---- B: char boundary (and <= len)
@@ -224,6 +247,10 @@ class Reason:
         fp = self.find_payload(t)
         if fp is not None and fp[0] == s:
             return True, "find-index"
+        # a + len(prefix) where prefix is the part of s[a..] before the first occurrence of a pattern (split_once)
+        sp = self.split_once_pos(t, s)
+        if sp is not None:
+            return True, "split-once"
         # a byte equal to an ASCII constant is always the first byte of a char: t and t+1 are boundaries
         if self.ascii_byte_at(s, t):
             return True, "ascii-byte"
@@ -262,31 +289,69 @@ class Reason:
             return True, "char-indices"
         return False, "no boundary rule applies to %s" % short(t)[:120]
 
-    def char_yield(self, t, s):
-        """if t is the index yielded by s.char_indices().next(), return the utf-8 length of the yielded char when it is
-        known equal to an ASCII constant on this path (else 0); None when t is not such an index"""
+    def _iter_source(self, pre, s):
+        """('chars'|'bytes', skip_term or None) when `pre` is char_indices(s) / bytes(s).enumerate(), possibly under
+        skip(n) / take(n) / by_ref adapters"""
+        skip = None
+        t = pre
+        for _ in range(6):
+            if not (isinstance(t, tuple) and t[0] == "call"):
+                return None
+            nm = t[1].split("::")[-1]
+            if nm in ("skip",) and len(t[2]) == 2:
+                skip = t[2][1]
+                t = t[2][0]
+                continue
+            if nm in ("take", "by_ref", "fuse", "peekable") and t[2]:
+                t = t[2][0]
+                continue
+            if nm == "char_indices" and t[2] and norm_str(t[2][0]) == s:
+                return ("chars", skip)
+            if nm == "enumerate" and t[2]:
+                inner = t[2][0]
+                if isinstance(inner, tuple) and inner[0] == "call" and inner[1].split("::")[-1] == "bytes" and inner[2] and norm_str(inner[2][0]) == s:
+                    return ("bytes", skip)
+                return None
+            return None
+        return None
+
+    def yield_info(self, t, s):
+        """(kind, ascii_len, skip) when t is the index component yielded by an index-producing iterator over s on this
+        path; ascii_len = 1 when the yielded char/byte is known equal to an ASCII constant, else 0"""
         if not (isinstance(t, tuple) and t[0] == "field" and t[3] == "0" and isinstance(t[1], tuple) and t[1][0] == "field" and t[1][2] == "Some"):
             return None
         nx = t[1][1]
-        if not (isinstance(nx, tuple) and nx[0] == "call" and "CharIndices" in nx[1] and nx[1].endswith("next")):
+        if not (isinstance(nx, tuple) and nx[0] == "call" and nx[1].endswith("next")):
             return None
-        # the iterator local's pre-loop value must be char_indices(s)
         src = None
         for e in self.trace:
             if e[0] == "loop":
                 for l, pre in e[2].items():
-                    if isinstance(pre, tuple) and pre[0] == "call" and pre[1].endswith("char_indices") and norm_str(pre[2][0]) == s:
-                        if any(isinstance(z, tuple) and z[0] == "havoc" and z[2] == l for z in subterms(nx)):
-                            src = pre
+                    if any(isinstance(z, tuple) and z and z[0] == "havoc" and len(z) == 3 and z[2] == l and z[1] == e[1] for z in subterms(nx)):
+                        got = self._iter_source(pre, s)
+                        if got is not None:
+                            src = got
         if src is None:
             return None
         ch = ("field", t[1], None, "1")
+        asc = 0
         for atom, pol in self.f.order:
             if atom[0] == "eq" and pol is True:
                 for x, y in ((atom[1], atom[2]), (atom[2], atom[1])):
                     if x == ch and is_int(y) and 0 <= y[1] < 128:
-                        return 1
-        return 0
+                        asc = 1
+        return (src[0], asc, src[1])
+
+    def char_yield(self, t, s):
+        """utf-8 length (1 for a known ASCII char, 0 unknown) when t is an index yielded by s.char_indices(); for a byte
+        enumeration only an index whose byte is known ASCII counts (a continuation byte is not a boundary)"""
+        yi = self.yield_info(t, s)
+        if yi is None:
+            return None
+        kind, asc, _ = yi
+        if kind == "bytes" and not asc:
+            return None
+        return asc
 
     def bracketed(self, s):
         """BR: s is known to start and end with an ASCII char and to have length >= 2"""
@@ -348,6 +413,19 @@ class Reason:
                     return True, "char-indices monotone"
                 if isinstance(b, tuple) and b[0] == "strlen" and norm_str(b[1]) == atom[2]:
                     return True, "char-indices within len"
+        # an index yielded by `.enumerate().skip(n)` / `.char_indices().skip(..)` is >= n only for the byte enumeration
+        peeled = [b]
+        while isinstance(peeled[-1], tuple) and peeled[-1][0] == "bin" and peeled[-1][1] == "Add" and is_int(peeled[-1][3]) and peeled[-1][3][1] >= 0 and len(peeled) < 5:
+            peeled.append(peeled[-1][2])
+        for cand_b in peeled:
+            for e in self.trace:
+                if e[0] == "inv":
+                    for sv in e[2].values():
+                        yi = self.yield_info(cand_b, sv)
+                        if yi is not None and yi[0] == "bytes" and yi[2] is not None:
+                            ok2, _ = (True, "") if yi[2] == a else self.le(a, yi[2]) if a != yi[2] and not (isinstance(a, tuple) and a == b) else (False, "")
+                            if ok2:
+                                return True, "enumerate-skip lower bound"
         # ordered by construction: a = p0 + len(lit), b = p0 + find(s[p0..], pat2), pat2 not in lit
         r = self.by_construction(a, b)
         if r:
@@ -403,8 +481,16 @@ class Reason:
         return False
 
     def char_yield_any(self, t):
-        return isinstance(t, tuple) and t[0] == "field" and t[3] == "0" and isinstance(t[1], tuple) and t[1][0] == "field" and \
-            isinstance(t[1][1], tuple) and t[1][1][0] == "call" and "CharIndices" in t[1][1][1]
+        """an index yielded by an index-producing iterator over some string of this path (hence < its length)"""
+        if isinstance(t, tuple) and t[0] == "field" and t[3] == "0" and isinstance(t[1], tuple) and t[1][0] == "field" and \
+                isinstance(t[1][1], tuple) and t[1][1][0] == "call" and "CharIndices" in t[1][1][1]:
+            return True
+        for e in self.trace:
+            if e[0] == "inv":
+                for sv in e[2].values():
+                    if self.yield_info(t, sv) is not None:
+                        return True
+        return False
 
 
 def _signed_atom(x):
@@ -476,6 +562,12 @@ def discharge(e, facts, trace):
                             and atom[1][2] and atom[1][2][0] == v and k[1] < atom[2][1]:
                         return True, "len-guard", "len >= %d dominates index %d" % (atom[2][1], k[1])
             return False, "vec-index", "no dominating length check for index %s" % short(k)
+        if name in ("with_capacity", "reserve", "reserve_exact", "resize", "resize_with", "from_elem", "with_capacity_and_hasher"):
+            sizes = [a for a in argv if not (isinstance(a, tuple) and a and a[0] in ("ref", "refval", "agg", "fn", "zst"))]
+            ok = all((is_int(a) and 0 <= a[1] < (1 << 32)) or R.bounded_by_len(a) for a in sizes)
+            if ok:
+                return True, "capacity-bounded", "requested capacity is a small constant or bounded by the input length"
+            return False, name, "allocation sized by %s, which is read from the input and not bounded by its length (capacity overflow / allocation failure)" % ", ".join(short(a)[:60] for a in sizes)
         return False, name, "no discharge rule for calls to %s" % e[1]
     return False, "?", "unknown site"
 
@@ -517,7 +609,9 @@ INT_TYS = {"usize", "u8", "u16", "u32", "u64", "u128", "i8", "i16", "i32", "i64"
 
 
 class Invariants:
-    """candidate loop invariants per loop header key; assumed at the header, checked at the back edges"""
+    """candidate loop invariants per loop header key; assumed at the header, checked at the back edges.
+    String-relative candidates (B, CI) name their string by SOURCE (a &str-typed local of the frame, possibly
+    dereferenced), so that paths on which that local holds different terms share one candidate."""
 
     def __init__(self):
         self.cands = {}     # loop key -> set of candidate tuples
@@ -528,28 +622,31 @@ class Invariants:
 
         def on_loop(st, fr, key, pre):
             body = fr.body
+            srcs = dict(body_strs(st, fr))          # source -> string term on this path
             if key not in inv.cands:
                 c = set()
                 for l, pv in pre.items():
                     ty = body.locals[l]["ty"]
-                    h = ("havoc", key, l)
                     if ty in INT_TYS:
-                        hs = ("signed", h) if ty.startswith("i") else h
                         if ty == "usize":
-                            for s in body_strs(st, fr):
-                                c.add(("B", l, s))
-                                c.add(("CI", l, s))
+                            for src in srcs:
+                                c.add(("B", l, src))
+                                c.add(("CI", l, src))
                         c.add(("GE", l, unsign(pv)))
                     elif "&str" in ty or "&'" in ty and "str" in ty:
                         c.add(("BR", l))
                 inv.cands[key] = c
+            st.trace.append(("inv", key, srcs))
             for cand in inv.cands[key]:
                 l = cand[1]
                 h = ("havoc", key, l)
                 ty = body.locals[l]["ty"]
-                if cand[0] == "B":
-                    st.facts.atoms[("B", h, cand[2])] = True
-                    st.facts.order.append((("B", h, cand[2]), True))
+                if cand[0] in ("B", "CI"):
+                    sv = srcs.get(cand[2])
+                    if sv is None:
+                        continue
+                    st.facts.atoms[(cand[0], h, sv)] = True
+                    st.facts.order.append(((cand[0], h, sv), True))
                 elif cand[0] == "GE":
                     hs = ("signed", h) if ty.startswith("i") else h
                     st.facts.atoms[("GE", hs, cand[2])] = True
@@ -559,26 +656,28 @@ class Invariants:
                 elif cand[0] == "BR":
                     st.facts.atoms[("BR", h)] = True
                     st.facts.order.append((("BR", h), True))
-                elif cand[0] == "CI":
-                    st.facts.atoms[("CI", h, cand[2])] = True
-                    st.facts.order.append((("CI", h, cand[2]), True))
         walker.on_loop = on_loop
+
+    @staticmethod
+    def _srcs_of(trace, key):
+        for e in trace:
+            if e[0] == "inv" and e[1] == key:
+                return e[2]
+        return {}
 
     def check(self, results, bodies):
         """drop candidates that fail base or step; return number dropped"""
         dropped = 0
-        # base case: pre-values recorded in loop markers; step: values at back edges
         for r in results:
             for e in r.trace:
                 if e[0] != "loop":
                     continue
                 key, pre = e[1], e[2]
+                srcs = self._srcs_of(r.trace, key)
                 for cand in list(self.cands.get(key, ())):
                     pv = pre.get(cand[1])
-                    # facts available at loop entry: prefix up to this marker is unknown here; use whole-path facts that
-                    # do not mention this loop's havocs (sound: they were established before or independently)
                     R = Reason(_facts_without(r.facts, key), r.trace)
-                    if not _holds(cand, pv, R, key, None):
+                    if not _holds(self._inst(cand, srcs), pv, R, key, None):
                         self.cands[key].discard(cand)
                         dropped += 1
         for r in results:
@@ -592,12 +691,20 @@ class Invariants:
             if fr is None:
                 continue
             R = Reason(r.facts, r.trace)
+            srcs = self._srcs_of(r.trace, key)
             for cand in list(self.cands.get(key, ())):
                 nv = fr.locals.get(cand[1])
-                if not _holds(cand, nv, R, key, cand[1]):
+                if not _holds(self._inst(cand, srcs), nv, R, key, cand[1]):
                     self.cands[key].discard(cand)
                     dropped += 1
         return dropped
+
+    @staticmethod
+    def _inst(cand, srcs):
+        if cand[0] in ("B", "CI"):
+            sv = srcs.get(cand[2])
+            return (cand[0], cand[1], sv) if sv is not None else (cand[0], cand[1], ("<no-such-string-on-this-path>",))
+        return cand
 
 
 def _facts_without(facts, key):
@@ -678,6 +785,7 @@ def _bracketed_value(x, R):
         return False
     a, b = rng[2]
     first = R.match_len_at(s, a) == 1
-    last = R.ascii_byte_at(s, b)
+    yi = R.yield_info(b, s)
+    last = R.ascii_byte_at(s, b) or (yi is not None and yi[1] == 1)
     ok, _ = R.le(("bin", "Add", a, Int(1)), b)
     return first and last and ok
